@@ -1,5 +1,6 @@
-"""C05: five-line reproductions of the open findings against /repo (PYTHONPATH=/repo /venv/bin/python tools/c05_repro.py [name]).
-The crash witness kills the interpreter: run it alone (`crash`)."""
+"""C05: five-line reproductions of the findings against /repo (PYTHONPATH=/repo /venv/bin/python tools/c05_repro.py [name]).
+growth, shrink, remask, crash, mps, simulator, stepper are repaired in /repo (1c6530fa, 3d5f407f, bc7ab4f9, 5b78b3c9): history
+and fresh agree now.  Still open: `vacuum` (kills the interpreter: run it alone) and `processor`."""
 import sys
 import perceval as pcvl
 from perceval.backends import SLOSBackend, MPSBackend
@@ -36,6 +37,11 @@ if which == "crash":
     b = SLOSBackend(); b.set_circuit(C2); b.set_mask("2*")
     b.set_input_state(BasicState([1, 0])); print("fresh:", fresh("2*", [1, 1]).prob_distribution(), flush=True)
     b.set_input_state(BasicState([1, 1]))       # segmentation fault
+if which == "vacuum":
+    f = SLOSBackend(); f.set_circuit(C2); f.set_mask("2*", 1); f.set_input_state(BasicState([1, 0]))
+    print("fresh:", f.prob_distribution(), flush=True)
+    b = SLOSBackend(); b.set_circuit(C2); b.set_mask("2*", 1); b.set_input_state(BasicState([0, 0]))
+    b.set_input_state(BasicState([1, 0]))       # segmentation fault
 if which in ("all", "mps"):
     c4 = Circuit(4)
     for k in range(3):
